@@ -212,3 +212,8 @@ def run(ctx):
         ctx.step(C06.r06_3_dominance, ctx, A, chk, add, ins)
         ctx.rule('R06.5', 'set front ends reach the set entry point (no duplicate check), map front ends the map entry point', floor=12)
         ctx.step(C06.r06_5, ctx, A, add, ins)
+    # same keys and values, same bytes - whatever sink receives them: the trailing checksum and every node address depend only on
+    # the bytes the sink ACCEPTED (R07.1); a checksum fed with offered bytes differs between a short-writing sink and a Vec
+    import rules.C07 as C07
+    from absint import Prover
+    ctx.step(C07.r07_1, ctx, A, Prover(lib))
